@@ -511,6 +511,44 @@ fn g_tables(_src: &mut Src, obs: &mut Obs) -> CaseResult {
             return Err(Fail::new(format!("C18:ControlByte:variant:{}", n), format!("{:?} = {}", c, *c as u8), json!({})));
         }
     }
+    // the control byte where it travels: P1 of a well-formed U2F authenticate APDU (all 256
+    // values, short and extended framing, both conversions) - accepted iff it is 3, 7 or 8, and
+    // then as exactly that control byte
+    for p1 in 0..=255u8 {
+        for enc in [0usize, 2] {
+            for handle in [0usize, 5] {
+                obs.sub_evals += 1;
+                let mut data = vec![0x5Au8; 65 + handle];
+                data[64] = handle as u8;
+                let Some(apdu) = crate::props::c08::frame(0, 2, p1, 0, &data, enc) else { continue };
+                let valid = matches!(p1, 3 | 7 | 8);
+                let view = match iso7816::command::CommandView::try_from(&apdu[..]) {
+                    Ok(v) => v,
+                    Err(_) => continue,
+                };
+                let mut got: Vec<Option<u8>> = vec![];
+                got.push(match ctap_types::ctap1::Request::try_from(view) {
+                    Ok(ctap_types::ctap1::Request::Authenticate(a)) => Some(a.control_byte as u8),
+                    _ => None,
+                });
+                if let Ok(cmd) = iso7816::Command::<512>::try_from(&apdu[..]) {
+                    got.push(match ctap_types::ctap1::Request::try_from(&cmd) {
+                        Ok(ctap_types::ctap1::Request::Authenticate(a)) => Some(a.control_byte as u8),
+                        _ => None,
+                    });
+                }
+                for g in got {
+                    if g != if valid { Some(p1) } else { None } {
+                        return Err(Fail::new(
+                            format!("C18:ControlByte:in-apdu:{}", if valid { "valid" } else { "other" }),
+                            format!("authenticate APDU with P1 = 0x{:02x}: control byte {:?}, expected {:?}", p1, g, if valid { Some(p1) } else { None }),
+                            json!({"p1": p1, "apdu_hex": crate::util::hex(&apdu)}),
+                        ));
+                    }
+                }
+            }
+        }
+    }
     Ok(())
 }
 
@@ -613,7 +651,7 @@ pub fn crossovers() -> Vec<String> {
     out.into_iter().collect()
 }
 
-pub const RULE: &str = "Exhaustive for every table. The permission bit set is additionally checked as a set: complement, union, intersection, difference, symmetric difference, contains / intersects over all pairs of the 64 defined sets against the same operations on the numbers (no operation may produce an undefined bit). Every pair (and triple with a repeat) of valid spellings is also decoded inside the list members that carry them (GetInfo versions / extensions / transports, attestationFormatsPreference): each occurrence must be recognised as the identifier it spells. Every probed string is additionally presented to the decoder as a byte string, a one-element array, a tagged text and a text with a non-minimal length prefix (all must be rejected). Cross-combinations of two valid spellings (concatenation, spelling + every suffix of another, prefix + spelling, prefix/suffix cross-overs) are presented to every string enumeration as well. String enumerations (Version, Extension, Transport, AttestationStatementFormat): every valid spelling of every enumeration is presented to every enumeration, together with every single-character deletion, substitution and insertion over [A-Za-z0-9_-], every case change, every proper prefix, one-character extensions, padded and NUL-terminated variants and the empty string - accepted iff the string is a valid spelling of THAT enumeration - through TryFrom<&str>/From and through cbor_deserialize/cbor_serialize; plus proptest random strings. Numeric enumerations (PinV1Subcommand, Subcommand, CredentialProtectionPolicy, ControlByte): all 256 byte values through TryFrom<u8> where it exists and through the decoder, integers at every head-width threshold up to 2^64-1, and negative integers. One whole-table case: `as u8` of every named status against the CTAP status table, permission bits, the spelling / number of every variant, pairwise distinct codes. Oracle: the specification tables in the harness. Every probe is a distinct (table, value) pair.";
+pub const RULE: &str = "Exhaustive for every table. The permission bit set is additionally checked as a set: complement, union, intersection, difference, symmetric difference, contains / intersects over all pairs of the 64 defined sets against the same operations on the numbers (no operation may produce an undefined bit). Every pair (and triple with a repeat) of valid spellings is also decoded inside the list members that carry them (GetInfo versions / extensions / transports, attestationFormatsPreference): each occurrence must be recognised as the identifier it spells. Every probed string is additionally presented to the decoder as a byte string, a one-element array, a tagged text and a text with a non-minimal length prefix (all must be rejected). Cross-combinations of two valid spellings (concatenation, spelling + every suffix of another, prefix + spelling, prefix/suffix cross-overs) are presented to every string enumeration as well. String enumerations (Version, Extension, Transport, AttestationStatementFormat): every valid spelling of every enumeration is presented to every enumeration, together with every single-character deletion, substitution and insertion over [A-Za-z0-9_-], every case change, every proper prefix, one-character extensions, padded and NUL-terminated variants and the empty string - accepted iff the string is a valid spelling of THAT enumeration - through TryFrom<&str>/From and through cbor_deserialize/cbor_serialize; plus proptest random strings. Numeric enumerations (PinV1Subcommand, Subcommand, CredentialProtectionPolicy, ControlByte): all 256 byte values through TryFrom<u8> where it exists and through the decoder, integers at every head-width threshold up to 2^64-1, and negative integers. The U2F control byte is also presented where it travels: as P1 (all 256 values) of a well-formed authenticate APDU in short and extended framing through both conversions - accepted iff 3, 7 or 8 and then as exactly that control byte. One whole-table case: `as u8` of every named status against the CTAP status table, permission bits, the spelling / number of every variant, pairwise distinct codes. Oracle: the specification tables in the harness. Every probe is a distinct (table, value) pair.";
 pub const ASSUMPTIONS: &[&str] = &["identifier tables transcribed from CTAP 2.1 (sections 6.4, 6.5.5, 6.8, 8.2) and the U2F raw message format"];
 
 pub fn run(ctx: &mut Ctx) {
